@@ -397,6 +397,30 @@ impl Block {
             return self.tokens.as_mut().unwrap().final_token.as_mut().unwrap();
         }
 
+        // when a semicolon follows the last statement, it is the last token of the block
+        let has_last_statement = self.last_statement.is_some();
+        let last_statement_index = self.statements.len().saturating_sub(1);
+        let has_final_semicolon = self
+            .tokens
+            .as_ref()
+            .map(|tokens| {
+                if has_last_statement {
+                    tokens.last_semicolon.is_some()
+                } else {
+                    matches!(tokens.semicolons.get(last_statement_index), Some(Some(_)))
+                }
+            })
+            .unwrap_or(false);
+
+        if has_final_semicolon {
+            let tokens = self.tokens.as_mut().unwrap();
+            return if has_last_statement {
+                tokens.last_semicolon.as_mut().unwrap()
+            } else {
+                tokens.semicolons[last_statement_index].as_mut().unwrap()
+            };
+        }
+
         if let Some(last_stmt) = self.last_statement.as_mut() {
             return last_stmt.mutate_last_token();
         }
